@@ -43,7 +43,7 @@ ASSUMPTIONS = ['a bare MAIL/RCPT and an undecodable argument are answered '
                'demands the error reply and no callback, not survival)']
 CELL_BUDGET_S = {'quick': 240, 'thorough': 2400}
 SAMPLE_P = 0.02
-MAX_WITNESSES = 6
+MAX_WITNESSES = 10
 
 LINES = [
     b'EHLO there', b'EHLO', b'ehlo there', b'HELO there', b'HELO',
